@@ -68,7 +68,8 @@ def programs_task(texts, levels):
 
 def loop_alphabet_programs():
     """all loops of <= 3 commands over a loop alphabet with small values"""
-    la = ['형.♥', '형♥', '항.♥', '항♥', '형.', '형', '흑...♥', '형.♡', '항...♥', '흣...♥', '형..!♥']
+    la = ['형.♥', '형♥', '항.♥', '항♥', '형.', '형', '흑...♥', '형.♡', '항...♥', '흣...♥', '형..!♥',
+          '형...', '항...♥!♡', '항...♡!♥', '형...♥?♡', '항...?♡']
     out = []
     for n in range(1, 4):
         for t in itertools.product(la, repeat=n):
